@@ -107,7 +107,72 @@ def polarity_rule(index, rep, rid):
     return n
 
 
+def _fresh_value(v):
+    return isinstance(v, (ast.List, ast.Dict, ast.Set)) and not getattr(v, "elts", getattr(v, "keys", None)) or \
+        (isinstance(v, ast.Call) and isinstance(v.func, ast.Name) and v.func.id in ("dict", "list", "set", "OrderedDict") and not v.args and not v.keywords) or \
+        (isinstance(v, ast.Call) and isinstance(v.func, ast.Attribute) and v.func.attr in ("OrderedDict", "defaultdict") and not v.keywords and len(v.args) <= 1)
+
+
+def unit_state_rule(index, rep, rid, cls_q, entry, user_q):
+    """A parser object that is reused for several units (matrices) must start each unit with empty
+    accumulators: every self field the methods reachable from `entry` fill (subscript store / mutator
+    call) is re-initialised by `entry` before anything else reads it - unless the object is built afresh
+    for each unit."""
+    cls = index.classes[cls_q]
+    ef = index.function(cls_q + "." + entry)
+    # methods reachable through self calls
+    seen, todo = {}, [ef]
+    while todo:
+        f = todo.pop()
+        if f.qualname in seen:
+            continue
+        seen[f.qualname] = f
+        for c in calls_in(f.node, nested=True):
+            grade, cands = index.resolve_call(c, f)
+            if grade == "self":
+                todo.extend(x for x in cands if isinstance(getattr(x, "node", None), ast.FunctionDef))
+    filled = {}
+    for f in seen.values():
+        for w in writes_in(f.node):
+            if w.kind in ("substore", "mutcall", "augstore", "subdel") and w.base is not None and norm(w.base) == "self":
+                filled.setdefault(w.attr, (f, w))
+    # resets at the head of the entry: fresh-container stores among the top-level statements that precede the first statement calling a self method
+    reset = {}
+    for st in ef.node.body:
+        if isinstance(st, ast.Expr) and isinstance(st.value, ast.Constant):
+            continue
+        if isinstance(st, ast.Assign) and len(st.targets) == 1 and isinstance(st.targets[0], ast.Attribute) and norm(st.targets[0].value) == "self" and _fresh_value(st.value):
+            reset[st.targets[0].attr] = st
+            continue
+        if any(index.resolve_call(c, ef)[0] == "self" for c in calls_in(st)) or any(isinstance(x, ast.Attribute) and norm(x.value) == "self" and x.attr in filled for x in ast.walk(st)):
+            break
+    # is the object built once and fed several units?
+    uf = index.function(user_q)
+    built_per_unit = False
+    pm = parent_map(uf.node)
+    ctor = [c for c in calls_in(uf.node) if call_name(c) == cls.name]
+    if not ctor:
+        raise AnalysisError("%s: %s is not constructed in %s" % (rid, cls.name, user_q))
+    for c in ctor:
+        p = pm.get(c)
+        while p is not None and p is not uf.node:
+            if isinstance(p, (ast.For, ast.While)):
+                built_per_unit = True
+            p = pm.get(p)
+    n = 0
+    for attr, (f, w) in sorted(filled.items()):
+        n += 1
+        ok = attr in reset or built_per_unit
+        rep.check(ok, rid, ef.qualname, "accumulator self.%s not re-initialised per unit" % attr, fn_where(f, w.stmt), "%s.%s: self.%s (filled in %s) is emptied at the start of each unit" % (cls.name, entry, attr, f.name),
+                  "%s is built once in %s and %s() is called for every unit, but self.%s - which %s fills - is not re-initialised at the start of %s: entries from the previous matrix (column positions, character types, state ids) leak into the next one, so a second matrix in the same file gets wrong cells or fails to parse"
+                  % (cls.name, user_q.rsplit(".", 1)[-1], entry, attr, f.qualname.rsplit(".", 1)[-1], entry))
+    return n
+
+
 def run(index, rep, tier):
+    rep.rule("R09.7", "per-matrix parser state: every accumulator field the NeXML characters parser fills while reading one matrix is re-initialised at the start of the next (the parser object is reused across matrices)")
+    nacc = unit_state_rule(index, rep, "R09.7", NXR + "._NexmlCharBlockParser", "parse_char_matrix", NXR + ".NexmlReader._parse_char_matrices")
+    rep.floor("R09.7", "accumulator fields of the NeXML characters parser", 5, nacc)
     rep.rule("R09.1", "NEXUS keyword agreement: every statement keyword / FORMAT term / DATATYPE value the writer emits has a branch in the reader")
     rep.rule("R09.2", "label escaping at the matrix sites (same table agreement as R02.1)")
     rep.rule("R09.3", "suppress_* polarity: every read of a suppress flag (directly or through a predicate returning it) gates the emission it governs negatively")
